@@ -66,6 +66,10 @@ TVisit == IsEv("Visit") /\ ~E.err /\ hand[E.w] = Work(E.path) /\ Visit(E.w)
 TVisitErr == IsEv("Visit") /\ E.err /\ VisitErr(E.w) /\ visited'[E.path] = visited[E.path] + 1
              /\ (E.quit = (E.path \in quitAt))
 
+\* an error that is not about an entry of the tree (an unparsable ignore file above the roots), handed to the visitor
+\* by whichever worker starts on a root: no protocol step
+TNote == IsEv("Note") /\ Stutter
+
 TPush ==
   /\ IsEv("Push")
   /\ IF E.init
@@ -81,7 +85,7 @@ TSetQuit == IsEv("SetQuit") /\ SetQuit(E.w)
 TDeact == IsEv("Deact") /\ Deactivate(E.w) /\ active' = E.remaining
 TAct == IsEv("Act") /\ Activate(E.w)
 
-TNext == TReset \/ TStart \/ TSleep \/ TExit \/ TRecv \/ TChk \/ TVisit \/ TVisitErr \/ TPush \/ TSetQuit \/ TDeact \/ TAct
+TNext == TReset \/ TStart \/ TSleep \/ TExit \/ TRecv \/ TChk \/ TVisit \/ TVisitErr \/ TNote \/ TPush \/ TSetQuit \/ TDeact \/ TAct
 TSpec == TInit /\ [][TNext]_tvars
 
 \* acceptance: every line consumed, and the last run complete
